@@ -1,12 +1,12 @@
 #!/bin/sh
-# usage: tools/seedmatrix.sh "<seeds>" [name-prefix] — every seeded change against its own property's quick check, for several seeds,
+# usage: tools/seedmatrix.sh "<seeds>" [name glob, e.g. "*c"] — every seeded change against its own property's quick check, for several seeds,
 # on the repo snapshot of a `vp run --with-repo` (or on $VERIF_REPO); prints one line per (change, seed)
 cd "$(dirname "$0")/.." || exit 2
 repo=${VP_RUN_REPO:-${VERIF_REPO:-}}
 [ -n "$repo" ] || { echo "needs VP_RUN_REPO or VERIF_REPO (never patches /repo)"; exit 2; }
 export VERIF_REPO="$repo"
 (cd lean && lake build >/dev/null 2>&1)
-for d in seeded/${2:-}*/; do
+for d in seeded/${2:-*}/; do
   name=$(basename "$d"); prop=$(echo "$name" | cut -c1-3)
   git -C "$repo" apply "$PWD/$d/patch.diff" 2>/dev/null || { echo "$name: patch does not apply"; continue; }
   for s in $1; do
